@@ -13,6 +13,7 @@
             gen -1 none | 0 NP1 | 1 NP2.1 | 2 NP2.4 | 3 NPultra; enc 0 shank map | 1 geometry map
             | 2 no map; split -1 or the NP2.4_shank value
      output 1 :: raw_channel_order   or [0] (outside the model's domain)
+   api 6: as api 3 with the stream type first: [6; nidq(0|1); gen; enc; srt; split; nc; n; sites..]
    api 5 (constructor without meta data): input [5; nbytes] -> [1; nc; ns; nsync] or [0]
    api 10 / 11 / 12: as 0 / 1 / 2 on a reader that is NOT open: [1; 4] (IOError) wherever the call
      reaches read
@@ -69,6 +70,20 @@ Definition enc_result (r : result (Z * Z * Z)) : list Z :=
   0 :: enc_bool rd :: enc_bool cd :: Z.of_nat (length cells) :: ncols
     :: flat_map (flat_map enc_cell) cells.
 
+Definition run_order_t (inp : list Z) : list Z :=
+  match inp with
+  | nidq :: g :: e :: srt :: split :: nc :: n :: rest =>
+      let sites := IBL.C08.Run.dec_sites (Z.to_nat n) rest in
+      match reader_channel_order_t nc (nidq =? 1)
+              (if g <? 0 then None else Some (IBL.C08.Run.dec_gen g))
+              (if e =? 0 then Some IBL.C08.Model.ShankMap else if e =? 1 then Some IBL.C08.Model.GeomMap else None)
+              sites (if split <? 0 then None else Some split) (srt =? 1) with
+      | Some o => 1 :: o
+      | None => [0]
+      end
+  | _ => [-999]
+  end.
+
 Definition run_order (inp : list Z) : list Z :=
   match inp with
   | g :: e :: srt :: split :: nc :: n :: rest =>
@@ -96,6 +111,7 @@ Definition run (inp : list Z) : list Z :=
                    | None => [0]
                    end
   | 3 :: r => run_order r
+  | 6 :: r => run_order_t r
   | 4 :: r => run_gains r
   | api0 :: cb :: nb :: r0 =>
       let opened := api0 <? 10 in
